@@ -34,9 +34,13 @@ ASSUMPTIONS = ["the *Bin strategies other than Best1Bin are implemented with the
                "use, so for those only 'the recomputation from the recorded draws by the exponential rule' is asserted",
                "Best2/Rand2 use base + F*(a + b - c - d) (the published form; two docstrings print a different sign pattern)",
                "Powell is compared 'given the same Brent line search': PowellRef calls mystic._scipy060optimize.brent",
-               "the Nelder-Mead/Powell halves are input-driven (no seam); the simulator only supplies the scripted cost environment"]
+               "the Nelder-Mead/Powell halves are input-driven; the simulator supplies the scripted cost environment and, for 30 % of the "
+               "class-path Nelder-Mead plans, a LoggingMonitor step monitor on the simulated file system whose writes fail once or twice (EIO/"
+               "ENOSPC, handled by the caller, who steps on): the objective never fails, so the iteration must remain the reference's and a "
+               "failed write may cost at most its own record",
+               "DE plans: the cost may fail once in mid-generation (the retried generation is judged like any other)"]
 REAL = ["mystic NM/Powell/DE/DE2 solvers, fmin, fmin_powell, strategy.py, _scipy060optimize.brent, termination defaults"]
-STUB = ["cost (scripted peer)", "mystic.strategy's random source (recording/scripted generator)", "references: scipy.optimize Nelder-Mead, PowellRef, DERef"]
+STUB = ["cost (scripted peer)", "file open() proxy (log of the NM step monitor)", "mystic.strategy's random source (recording/scripted generator)", "references: scipy.optimize Nelder-Mead, PowellRef, DERef"]
 LEVEL_TEXT = ("seeded search over objectives, start points, tolerances, strategies, CR/F/population and draw sequences (with scripted legal "
               "extremes); lock-step refinement against reference implementations at every iteration")
 LEVEL_NOTE = ("DE half: draw stream is the simulated seam. NM/Powell halves: weakest use of the technique (no nondeterminism to control); "
